@@ -234,6 +234,7 @@ func (n *Node) gateEnter(ctx context.Context, kind string, height uint64) GateVe
 		n.spiStep, n.spiCalls = w.step, 0
 	}
 	n.spiCalls++
+	w.noteGoroutine(n, "worker")
 	if n.spiCalls > 20000 {
 		if ctx.Err() != nil {
 			w.violate("C16", "busy-loop-after-cancel", "n%d calls %s in a tight loop with a cancelled context (more than 20000 calls without ever blocking)", n.idx, kind)
@@ -335,12 +336,10 @@ func (bu *BlockUtils) ValidateBlockProposal(ctx context.Context, blockHeight pri
 	case b.Poison:
 		err = errors.New("poison block")
 	}
-	if err == nil {
-		if n.gateEnter(ctx, "validate", uint64(blockHeight)) == GateFail {
-			err = errors.New("consumer rejected")
-		}
-	} else {
-		w.ev("spi-start n%d validate h%d", n.idx, blockHeight)
+	// a consumer may be slow whatever its verdict will be: a block it is going to reject goes through the gate too
+	// (the verdict of a bad block stands whatever the gate says)
+	if v := n.gateEnter(ctx, "validate", uint64(blockHeight)); v == GateFail && err == nil {
+		err = errors.New("consumer rejected")
 	}
 	n.obs.validations = append(n.obs.validations, validationRec{seq: w.seq, height: uint64(blockHeight), hash: append([]byte(nil), blockHash...), block: b, ok: err == nil, epoch: n.epoch, step: w.step})
 	w.ev("spi-validate n%d h%d %s ok=%v", n.idx, blockHeight, b, err == nil)
